@@ -6,86 +6,9 @@ From PV Require Import Base.Prelude Base.Text Model.Locks Model.LocksOps.
 Open Scope string_scope.
 
 Definition known_C09_keys : list string :=
-   ["race:Parse.fast/purge:Host.LastSeen";
-    "race:Parse.fast/purge:Host.Online";
-    "race:Parse.fast/purge:Host.dirty";
-    "race:Parse.fast/purge:MACEntry.Online";
-    "race:Parse.fast/purge:MACEntry.HostList";
-    "race:Parse.fast/PrintTable:Host.LastSeen";
-    "race:Parse.fast/PrintTable:Host.Online";
-    "race:Parse.fast/PrintTable:Host.dirty";
-    "race:Parse.fast/PrintTable:MACEntry.LastSeen";
-    "race:Parse.fast/PrintTable:MACEntry.Online";
-    "race:Parse.fast/PrintTable:MACEntry.IPs";
-    "race:Parse.fast/icmp6.PrintTable:Host.Online";
-    "race:Parse.slow/purge:Host.LastSeen";
-    "race:Parse.slow/purge:Host.Online";
-    "race:Parse.slow/purge:Host.dirty";
-    "race:Parse.slow/purge:Host.Names";
-    "race:Parse.slow/purge:MACEntry.Online";
-    "race:Parse.slow/purge:MACEntry.HostList";
-    "race:Parse.slow/purge:MACEntry.Manufacturer";
-    "race:Parse.slow/PrintTable:Host.Online";
-    "race:Parse.slow/PrintTable:Host.dirty";
-    "race:Parse.slow/PrintTable:MACEntry.Online";
-    "race:Parse.slow/PrintTable:MACEntry.IPs";
-    "race:Parse.slow/icmp6.PrintTable:Host.Online";
-    "race:Notify/purge:MACEntry.HostList";
-    "race:Notify/PrintTable:Host.Online";
-    "race:Notify/PrintTable:Host.dirty";
-    "race:Notify/PrintTable:MACEntry.Online";
-    "race:Notify/SetDHCPv4IPOffer:MACEntry.Names";
-    "panic:Notify/Close:send-on-closed-channel";
-    "race:Notify.dhcp/purge:MACEntry.HostList";
-    "race:Notify.dhcp/PrintTable:Host.Online";
-    "race:Notify.dhcp/PrintTable:Host.dirty";
-    "race:Notify.dhcp/PrintTable:MACEntry.Online";
-    "race:Notify.dhcp/SetDHCPv4IPOffer:MACEntry.Names";
+   ["panic:Notify/Close:send-on-closed-channel";
     "panic:Notify.dhcp/Close:send-on-closed-channel";
-    "race:DHCPv4Update/purge:Host.LastSeen";
-    "race:DHCPv4Update/purge:Host.Online";
-    "race:DHCPv4Update/purge:Host.dirty";
-    "race:DHCPv4Update/purge:Host.Names";
-    "race:DHCPv4Update/purge:MACEntry.HostList";
-    "race:DHCPv4Update/purge:MACEntry.Manufacturer";
-    "race:DHCPv4Update/PrintTable:Host.LastSeen";
-    "race:DHCPv4Update/PrintTable:Host.Online";
-    "race:DHCPv4Update/PrintTable:Host.dirty";
-    "race:DHCPv4Update/PrintTable:Host.Names";
-    "race:DHCPv4Update/PrintTable:MACEntry.LastSeen";
-    "race:DHCPv4Update/PrintTable:MACEntry.Online";
-    "race:DHCPv4Update/PrintTable:MACEntry.IPs";
-    "race:DHCPv4Update/PrintTable:MACEntry.IP4Offer";
-    "race:DHCPv4Update/PrintTable:MACEntry.Names";
-    "race:DHCPv4Update/DHCPv4IPOffer:MACEntry.IP4Offer";
-    "race:DHCPv4Update/SetDHCPv4IPOffer:MACEntry.IP4Offer";
-    "race:DHCPv4Update/SetDHCPv4IPOffer:MACEntry.Names";
-    "race:DHCPv4Update/icmp6.PrintTable:Host.Online";
-    "race:purge/purge:MACEntry.HostList";
-    "race:purge/PrintTable:Host.Online";
-    "race:purge/PrintTable:Host.dirty";
-    "race:purge/PrintTable:MACEntry.Online";
-    "race:purge/SetDHCPv4IPOffer:MACEntry.Names";
     "panic:purge/Close:send-on-closed-channel";
-    "race:purge/dhcp4.ProcessPacket:Host.LastSeen";
-    "race:purge/dhcp4.ProcessPacket:Host.Online";
-    "race:purge/dhcp4.ProcessPacket:Host.dirty";
-    "race:purge/dhcp4.ProcessPacket:Host.Names";
-    "race:purge/dhcp4.ProcessPacket:MACEntry.HostList";
-    "race:purge/dhcp4.ProcessPacket:MACEntry.Names";
-    "race:purge/dhcp4.ProcessPacket:MACEntry.Manufacturer";
-    "race:PrintTable/dhcp4.ProcessPacket:Host.LastSeen";
-    "race:PrintTable/dhcp4.ProcessPacket:Host.Online";
-    "race:PrintTable/dhcp4.ProcessPacket:Host.dirty";
-    "race:PrintTable/dhcp4.ProcessPacket:Host.Names";
-    "race:PrintTable/dhcp4.ProcessPacket:MACEntry.LastSeen";
-    "race:PrintTable/dhcp4.ProcessPacket:MACEntry.Online";
-    "race:PrintTable/dhcp4.ProcessPacket:MACEntry.IPs";
-    "race:PrintTable/dhcp4.ProcessPacket:MACEntry.IP4Offer";
-    "race:PrintTable/dhcp4.ProcessPacket:MACEntry.Names";
-    "race:DHCPv4IPOffer/dhcp4.ProcessPacket:MACEntry.IP4Offer";
-    "race:SetDHCPv4IPOffer/dhcp4.ProcessPacket:MACEntry.IP4Offer";
-    "race:SetDHCPv4IPOffer/dhcp4.ProcessPacket:MACEntry.Names";
     "race:Close/Close:Session.closed";
     "panic:Close/Close:close-of-closed-channel";
     "race:arp.ProcessPacket/arp.Close:arp.closed";
@@ -98,7 +21,6 @@ Definition known_C09_keys : list string :=
     "race:icmp6.ProcessPacket.RA/icmp6.Close:icmp6.closed";
     "race:icmp6.ProcessPacket.RA/icmp6.Close:icmp6.closeChan";
     "panic:icmp6.ProcessPacket.RA/icmp6.Close:close-of-closed-channel";
-    "race:icmp6.PrintTable/dhcp4.ProcessPacket:Host.Online";
     "race:icmp6.spoofLoop/icmp6.Close:icmp6.closed";
     "race:icmp6.Close/icmp6.Close:icmp6.closed";
     "panic:icmp6.Close/icmp6.Close:close-of-closed-channel";
